@@ -149,7 +149,11 @@ where
     pub fn new(target: D, proposal: Q, initial_states: Vec<Vec<S>>) -> Self {
         let chains = initial_states
             .into_iter()
-            .map(|s| MHMarkovChain::new(target.clone(), proposal.clone(), s))
+            .map(|s| {
+                // A plain clone would share the proposal's generator state between all chains.
+                let proposal_seed = SmallRng::from_os_rng().next_u64();
+                MHMarkovChain::new(target.clone(), proposal.clone().set_seed(proposal_seed), s)
+            })
             .collect();
         Self {
             target,
@@ -185,9 +189,15 @@ where
     ```
     */
     pub fn seed(mut self, seed: u64) -> Self {
+        let n_chains = self.chains.len() as u64;
         for (i, chain) in self.chains.iter_mut().enumerate() {
             let chain_seed = seed.wrapping_add(1).wrapping_add(i as u64);
-            chain.rng = SmallRng::seed_from_u64(chain_seed)
+            chain.rng = SmallRng::seed_from_u64(chain_seed);
+            // Proposal seeds follow the acceptance seeds, so no two generators share a seed.
+            chain.proposal = chain
+                .proposal
+                .clone()
+                .set_seed(chain_seed.wrapping_add(n_chains));
         }
         self
     }
